@@ -13,6 +13,7 @@ import (
 	"runtime/debug"
 	"sort"
 
+	"github.com/markusressel/fan2go/internal/util"
 	"github.com/pterm/pterm"
 )
 
@@ -58,6 +59,7 @@ func main() {
 	ctx := newCtx(name, *seed, *tier, *batch, *of, *replay, *caselog, *scratch)
 	ctx.Mode = *mode
 	ctx.Arg = *arg
+	util.VerifScratchDir = *scratch
 	func() {
 		defer func() {
 			if p := recover(); p != nil {
@@ -67,6 +69,9 @@ func main() {
 		}()
 		r(ctx)
 	}()
+	if driver != nil && driver.RealOps > 0 {
+		ctx.Count("device_accesses_through_real_util_file_go", int64(driver.RealOps))
+	}
 	ctx.finish()
 	data, _ := json.Marshal(ctx.Res)
 	if *out != "" {
